@@ -27,7 +27,7 @@ bf.SCRIPTS.update({
                               ('add_groups', 'u1', 2, [G(2, parent_in=1)]), ('add_jobs', 'u1', 2, [J(1, group=2)]), ('commit', 'u1', 2)],
     'c07_job_into_g1': [('new_update', 'u1', 't2', 1, 0), ('add_jobs', 'u1', 2, [J(1, abs_group=1)]), ('commit', 'u1', 2)],
 })
-OPTS = {'stale_attempt': False, 'preempt': False, 'token_flip': False, 'dup_reports': False, 'no_sweeps': True, 'readers': False}
+OPTS = {'job_private': True, 'late_started': False, 'stale_attempt': False, 'preempt': False, 'token_flip': False, 'dup_reports': False, 'no_sweeps': True, 'readers': False}
 
 
 def setups(tier):
@@ -39,30 +39,7 @@ def setups(tier):
 
 
 class H(bf.Family):
-    def make_world(self):
-        # + a job-private instance that is still pending (jobs pass through Creating on it)
-        return ops.BatchWorld(instances=(('i1', 'standard', 'active'), ('i2', 'standard', 'active'), ('i3', 'job-private', 'pending')))
-
-    def enabled(self, w):
-        out = super().enabled(w)
-        v = bf.View(w)
-        st = {n: i.state for n, i in w.icm.instances.items()}
-        atts = {(a['job_id'], a['attempt_id']) for a in w.table('attempts')}
-        # job-private path: the driver puts a Ready job into Creating on a pending instance, the instance activates,
-        # then schedule_job is called with the attempt recorded by mark_job_creating
-        for j in v.jobs[:2]:
-            jid = j['job_id']
-            att = f'P{jid}'
-            if st['i3'] == 'pending' and j['state'] == 'Ready' and (jid, att) not in atts and not any(a[1].startswith('P') for a in atts):
-                out.append(('creating', jid, att, 'i3', 10))
-            if (jid, att) in atts:
-                if st['i3'] == 'pending':
-                    out.append(('activate', 'i3', 10))
-                if st['i3'] == 'active' and j['state'] == 'Creating':
-                    out.append(('schedule', jid, att, 'i3'))
-        out.append(('canceller', 'creating'))
-        return out
-
+    # the job-private path (Creating on a pending instance) comes from Family's 'job_private' option
     def pre_view(self, w):
         super().pre_view(w)
         return (bf.View(w), w.mdb.store.dump(drop=bf.DROP))
